@@ -7,6 +7,9 @@ use vh::nodes::*;
 use vh::*;
 
 pub fn dispatch(cmd: &str, a: &Args) -> bool {
+    if crate::p::dispatch(cmd, a) {
+        return true;
+    }
     match cmd {
         "c01" => c01(a),
         "c02" => c02(a),
@@ -89,7 +92,7 @@ fn unused(_: &Args) {
 }
 
 /// Model event (from a REPLAY line) -> the same shape as `Ev`, for exact comparison.
-fn model_ev(e: &Value) -> Ev {
+pub fn model_ev(e: &Value) -> Ev {
     let k = match e["k"].as_str().unwrap_or("") {
         "StreamStart" => "StreamStart",
         "StreamEnd" => "StreamEnd",
